@@ -56,12 +56,16 @@ NOut(n) == {FarOut(e, n) : e \in EOut(n)}
 NIn(n)  == {FarIn(e, n) : e \in EIn(n)}
 Nbrs(n) == NOut(n) \cup NIn(n)
 HasLoop(n) == \E e \in DOMAIN edges : edges[e] = <<n, n>>
-Degree(n)  == Cardinality(EAll(n))              \* asserted for loop-free nodes only (2i)
-IsLeaf(n)  == Cardinality(Nbrs(n)) <= 1         \* "has at most one neighbour" (2i)
+Degree(n)  == Cardinality(EAll(n))              \* number of incident edges; a self-loop: see GraphTrace!ViewNodeTable
+IsLeaf(n)  == Cardinality(Nbrs(n)) <= 1         \* "has at most one neighbour"; a looped node is its own neighbour
 RelD(a, b) == {e \in DOMAIN edges : edges[e] = <<a, b>> \/ (~directed /\ edges[e] = <<b, a>>)}
 RelAny(a, b) == RelD(a, b) \cup RelD(b, a)
 Incident(n) == {e \in DOMAIN edges : edges[e][1] = n \/ edges[e][2] = n}
 Reciprocal == \E e1, e2 \in DOMAIN edges : e1 # e2 /\ edges[e1] = Rev(edges[e2])
+
+RECURSIVE Ball(_, _)
+Ball(n, d) == IF d = 0 THEN {n} ELSE LET B == Ball(n, d - 1) IN B \cup UNION {Nbrs(m) : m \in B}
+LeavesFrom(n, d) == IF IsLeaf(n) THEN {n} ELSE {m \in Ball(n, d) : IsLeaf(m)}
 
 FreshN(n) == n \notin nodes /\ n >= nextN
 FreshE(e) == e \notin DOMAIN edges /\ e >= nextE
@@ -79,9 +83,11 @@ ECreateNodeFromNode(o, n, e) ==
       nodes \cup {n}, Put(edges, e, <<o, n>>), directed, n + 1, e + 1)
 
 \* A -x-> B becomes A -e1-> n -e2-> B
+\* splitting an undirected self-loop a - a needs two parallel edges a - n: raise, or parallel edges (2a)
+ULoop(x) == x \in DOMAIN edges /\ ~directed /\ edges[x][1] = edges[x][2]
 ECreateNodeOnEdge(x, n, e1, e2) ==
   LET ab == IF x \in DOMAIN edges THEN edges[x] ELSE <<0, 0>> IN
-  Eff(x \in DOMAIN edges /\ FreshN(n) /\ FreshE(e1) /\ FreshE(e2) /\ e1 # e2, x \notin DOMAIN edges,
+  Eff(x \in DOMAIN edges /\ FreshN(n) /\ FreshE(e1) /\ FreshE(e2) /\ e1 # e2, x \notin DOMAIN edges \/ ULoop(x),
       nodes \cup {n}, Put(Put(Del(edges, {x}), e1, <<ab[1], n>>), e2, <<n, ab[2]>>),
       directed, n + 1, Mx(e1, e2) + 1)
 
@@ -90,7 +96,7 @@ ECreateNodeFromEdge(x, n1, n2, e1, e2, e3) ==
   LET ab == IF x \in DOMAIN edges THEN edges[x] ELSE <<0, 0>> IN
   Eff(/\ x \in DOMAIN edges /\ FreshN(n1) /\ FreshN(n2) /\ n1 # n2
       /\ FreshE(e1) /\ FreshE(e2) /\ FreshE(e3) /\ Cardinality({e1, e2, e3}) = 3,
-      x \notin DOMAIN edges,
+      x \notin DOMAIN edges \/ ULoop(x),
       nodes \cup {n1, n2},
       Put(Put(Put(Del(edges, {x}), e1, <<ab[1], n1>>), e2, <<n1, ab[2]>>), e3, <<n1, n2>>),
       directed, Mx(n1, n2) + 1, Mx(e1, Mx(e2, e3)) + 1)
@@ -209,14 +215,17 @@ ASplit(S, x, n, e1, e2) ==        \* createNodeOnEdge after edgeMustExist_
   LET a == S.e[x][1]  b == S.e[x][2] IN
   ALink(ALink(AUnlink(ACreateNode(S, n), a, b), a, n, e1), n, b, e2)
 
+\* edgeMustExist_, and an undirected self-loop cannot be split (the node table holds one edge per pair)
+ACanSplit(S, x) == x \in DOMAIN S.e /\ (S.d \/ S.e[x][1] # S.e[x][2])
+
 CreateNodeOnEdge(x) ==
   /\ nextN < MaxN /\ nextE + 1 < MaxE
-  /\ IF x \in DOMAIN edgeT THEN Ok(ASplit(Cur, x, nextN, nextE, nextE + 1)) ELSE Raise
+  /\ IF ACanSplit(Cur, x) THEN Ok(ASplit(Cur, x, nextN, nextE, nextE + 1)) ELSE Raise
   /\ Apply(ECreateNodeOnEdge(x, nextN, nextE, nextE + 1))
 
 CreateNodeFromEdge(x) ==
   /\ nextN + 1 < MaxN /\ nextE + 2 < MaxE
-  /\ IF x \in DOMAIN edgeT
+  /\ IF ACanSplit(Cur, x)
      THEN Ok(ALink(ACreateNode(ASplit(Cur, x, nextN, nextE, nextE + 1), nextN + 1), nextN, nextN + 1, nextE + 2))
      ELSE Raise
   /\ Apply(ECreateNodeFromEdge(x, nextN, nextN + 1, nextE, nextE + 1, nextE + 2))
@@ -249,11 +258,11 @@ GraphNext ==
   \/ CreateNode
   \/ \E o \in Ids : CreateNodeFromNode(o)
   \/ \E x \in EIds : CreateNodeOnEdge(x) \/ CreateNodeFromEdge(x)
-  \/ \E a, b \in Ids : (a # b \/ dirT) /\ Link(a, b)       \* self-loops are generated in directed mode only (2i)
+  \/ \E a, b \in Ids : Link(a, b)                         \* self-loops included, in both modes
   \/ \E a, b \in Ids : Unlink(a, b)
   \/ \E n \in Ids : DeleteNode(n)
   \/ MakeDirected
-  \/ (~\E n \in nodes : HasLoop(n)) /\ MakeUndirected    \* no undirected self-loops (2i): splitting one needs parallel edges
+  \/ MakeUndirected
 
 GraphInit(d) ==
   /\ directed = d /\ nodes = {} /\ edges = NoMap /\ nextN = 0 /\ nextE = 0
